@@ -111,6 +111,7 @@ def run_case(case, seed):
 
     # left sweeps
     pairs = [(None, None)] + [(s, e) for s in range(0, d - 1) for e in range(s, d - 1)]
+    # (ortho_left validates isinstance(index, int) and raises its documented TypeError for NumPy integers; ortho_right admits them)
     for s, e in pairs:
         T = tt_from(cores0); before = snap(T)
         key = 'ortho_left' + ('' if s is None else ':partial')
@@ -121,6 +122,7 @@ def run_case(case, seed):
                 for i in range(lo, hi + 1):
                     r.true(key + ':isometry', is_left_orth(T.cores[i]), 'core %d not left-orthonormal' % i)
     pairs = [(None, None)] + [(s, e) for s in range(d - 1, 0, -1) for e in range(s, 0, -1)]
+    pairs += [(np.int32(s), np.int64(e)) for s, e in pairs[1:]]        # NumPy integers pass ortho_right's own validation
     for s, e in pairs:
         T = tt_from(cores0); before = snap(T)
         key = 'ortho_right' + ('' if s is None else ':partial')
